@@ -337,36 +337,57 @@ func declaredSize(h []Letter, zstd int) []string {
 	if bars == nil {
 		return nil
 	}
-	last := proto.Clone(bars[len(bars)-1]).(*colarspb.BatchArrowRecords)
-	patched := false
-	for i := len(last.ArrowPayloads) - 1; i >= 0 && !patched; i-- {
-		patched = patchFirstBodyLength(last.ArrowPayloads[i].Record, 1<<50)
-	}
-	if !patched {
-		return nil
-	}
-	const limit = 1 << 20
-	if limitCaseHook != nil {
-		f, out := limitCaseHook(limit)
-		wdBegin(f, out)
-		defer wdEnd()
-	}
-	c := arrow_record.NewConsumer(arrow_record.WithMemoryLimit(limit))
-	defer func() { protect(func() { c.Close() }) }()
-	for i := 0; i+1 < len(h); i++ {
-		if _, err, pan := decodeCanon(c, h[i], bars[i]); err != nil || pan != "" {
-			return nil
-		}
-	}
-	_, err, pan := decodeCanon(c, h[len(h)-1], last)
 	var viol []string
-	switch {
-	case pan != "":
-		viol = append(viol, "a batch declaring a 2^50 byte buffer made the consumer panic under a 1 MiB limit: "+pan)
-	case err == nil:
-		viol = append(viol, "a batch declaring a 2^50 byte buffer was accepted under a 1 MiB limit")
-	case !errors.Is(err, arrow_record.ErrConsumerMemoryLimit):
-		viol = append(viol, fmt.Sprintf("a batch declaring a 2^50 byte buffer was refused under a 1 MiB limit with an error that is not recognisable as the memory-limit error: %v", err))
+	// a huge declared body, and negative ones (a length <= -64 reaches Reallocate with a negative size)
+	for _, declared := range []int64{1 << 50, -64, -1024, -4096, -65536} {
+		last := proto.Clone(bars[len(bars)-1]).(*colarspb.BatchArrowRecords)
+		patched := false
+		for i := len(last.ArrowPayloads) - 1; i >= 0 && !patched; i-- {
+			patched = patchFirstBodyLength(last.ArrowPayloads[i].Record, declared)
+		}
+		if !patched {
+			return viol
+		}
+		const limit = 1 << 20
+		if limitCaseHook != nil {
+			f, out := limitCaseHook(limit)
+			wdBegin(f, out)
+		}
+		rec := &memRecorder{}
+		c := arrow_record.NewConsumer(arrow_record.WithMemoryLimit(limit), arrow_record.WithMeterProvider(recMP{rec: rec}))
+		healthy := true
+		for i := 0; i+1 < len(h); i++ {
+			if _, err, pan := decodeCanon(c, h[i], bars[i]); err != nil || pan != "" {
+				healthy = false
+			}
+		}
+		if healthy {
+			_, err, pan := decodeCanon(c, h[len(h)-1], last)
+			what := fmt.Sprintf("a batch declaring a %d byte body", declared)
+			if declared == 1<<50 {
+				what = "a batch declaring a 2^50 byte buffer"
+			}
+			switch {
+			case pan != "":
+				viol = append(viol, what+" made the consumer panic under a 1 MiB limit: "+pan)
+			case declared > 0 && err == nil:
+				viol = append(viol, what+" was accepted under a 1 MiB limit")
+			case declared > 0 && !errors.Is(err, arrow_record.ErrConsumerMemoryLimit):
+				viol = append(viol, fmt.Sprintf("%s was refused under a 1 MiB limit with an error that is not recognisable as the memory-limit error: %v", what, err))
+			}
+		}
+		protect(func() { c.Close() })
+		if limitCaseHook != nil {
+			wdEnd()
+		}
+		if healthy {
+			for _, v := range rec.values {
+				if v < 0 || v > limit {
+					viol = append(viol, fmt.Sprintf("after a batch declaring a %d byte body the consumer reported %d bytes of Arrow memory in use (limit %d)", declared, v, limit))
+					break
+				}
+			}
+		}
 	}
 	return viol
 }
